@@ -452,6 +452,7 @@ type c10spec struct {
 	warmup bool   // a File.Render (no fault) before the operation under test
 	wshape string // writer entries: the writer's behaviour (hist.Op.WFault, c10_rich.go); "" = wfault alone decides
 	large  bool   // tree rich: 400..1600 declarations
+	big    int    // tree big: the rendered output has at least this many bytes (c10_rich.go, large-writer-faults)
 }
 
 func (p *c10) build(r *rand.Rand, s c10spec, stream string) *Case {
@@ -509,6 +510,10 @@ func (p *c10) build(r *rand.Rand, s c10spec, stream string) *Case {
 			}
 			sts = append(sts[:k:k], append([]*term.Stmt{ins}, sts[k:]...)...)
 		}
+	case "big":
+		var by string
+		sts, by = c10BigStmts(r, g, s.big, !strings.HasSuffix(s.entry, "-group"))
+		moreTags = append(moreTags, c10SizeTag(s.big), "size-by="+by)
 	case "random-rich":
 		for j := 0; j < 1+r.Intn(3); j++ {
 			sts = append(sts, g.Stmt(0))
@@ -671,6 +676,7 @@ func (p *c10) Generate(r *rand.Rand, t string) []*Case {
 	// c10_rich.go
 	out = append(out, p.richContent(r, t)...)
 	out = append(out, p.writerShapes(r, t)...)
+	out = append(out, p.largeWriterFaults(r, t)...)
 	return out
 }
 
@@ -1323,9 +1329,9 @@ func c10Judge(h hist.History, info *c10info, got []hist.Obs) string {
 			}
 			mustFail := c10ShapeFails(shape) // the first Write reports an error
 			if o.Failed {
-				if shape == "second-err" && o.Writes >= 2 {
-					// the second call failed and the error came back - but nothing makes a second call necessary
-					return fmt.Sprintf("%sthe output was handed over in %d Write calls (the second one failed): exactly one Write must carry the whole output", what, o.Writes)
+				if (shape == "second-err" || shape == "third-err") && o.Writes >= 2 {
+					// a later call failed and the error came back - but nothing makes a second call necessary
+					return fmt.Sprintf("%sthe output was handed over in %d Write calls (the last one failed): exactly one Write must carry the whole output", what, o.Writes)
 				}
 				if !mustFail {
 					return what + "a writer error was returned although no fault was injected"
@@ -1336,7 +1342,7 @@ func c10Judge(h hist.History, info *c10info, got []hist.Obs) string {
 				continue
 			}
 			if mustFail {
-				return fmt.Sprintf("%sthe writer's error was swallowed: the first Write failed (of %d; writer shape %s) and nil was returned", what, o.Writes, shape)
+				return fmt.Sprintf("%sthe writer's error was swallowed: the writer (shape %s) returned its error (Write was called %d time(s); it took %d byte(s)) and nil was returned", what, shape, o.Writes, len(o.Out))
 			}
 			if shape == "short-nil" && len(o.Offered) > 0 {
 				// the writer took only a part of the first call and reported no error (it breaks the
